@@ -851,6 +851,11 @@ def main():
     except ImportError:
         pass
     try:
+        import rs2lean_helpers
+        gens += rs2lean_helpers.generators(args.repo)
+    except ImportError:
+        pass
+    try:
         import rs2lean_dispatch
         gens += rs2lean_dispatch.generators(args.repo)
     except ImportError:
